@@ -34,6 +34,14 @@ class ViewVal:
         self.t = TOpaque("View")
 
 
+class EmptyLit:
+    """An empty container literal ({} / [] / set()) whose type comes from where it is stored."""
+
+    def __init__(self, kind):
+        self.kind = kind
+        self.t = TOpaque("EmptyLit")
+
+
 class SuperVal:
     def __init__(self, cls_short, selfv):
         self.cls, self.selfv = cls_short, selfv
@@ -245,6 +253,9 @@ class Exec:
     def st_ImportFrom(self, s, st):
         yield Outcome("normal", st)
 
+    def st_Nonlocal(self, s, st):
+        yield Outcome("normal", st)
+
     def st_Global(self, s, st):
         raise Unsupported("global statement")
 
@@ -307,6 +318,11 @@ class Exec:
                 base = self.deopt_or_fail(base, st1, target)
                 if not isinstance(base.t, TRef):
                     raise Unsupported(f"attribute store on {base.t} (line {target.lineno})")
+                if isinstance(v, EmptyLit):
+                    d, ft = decl.find_field(base.t.cls, target.attr)
+                    if d is None:
+                        raise Unsupported(f"field {base.t.cls}.{target.attr} not declared")
+                    v = self.materialise_empty(v, ft, st1)
                 heapops.write_field(st1.heap, base, target.attr, v)
                 yield Outcome("normal", st1)
         elif isinstance(target, ast.Subscript):
@@ -672,7 +688,16 @@ class Exec:
         if getattr(builtins, getattr(obj, "__name__", ""), None) is obj and obj.__name__ in BUILTIN_FUNCS:
             return FuncVal("builtin", obj.__name__)
         import collections
+        import math as _math
 
+        try:
+            import numpy as _np
+        except Exception:  # pragma: no cover
+            _np = None
+        if obj in (_math.exp, getattr(_np, "exp", None)):
+            return FuncVal("builtin", "exp")
+        if obj in (_math.log, getattr(_np, "log", None)):
+            return FuncVal("builtin", "log")
         if obj is collections.defaultdict:
             return FuncVal("builtin", "defaultdict")
         if isinstance(obj, type) and obj.__name__ == "udict" and obj.__module__ == "pint.util":
@@ -701,6 +726,9 @@ class Exec:
     def attribute(self, base, attr, st, node):
         if isinstance(base, SuperVal):
             yield st, FuncVal("supermethod", attr, recv=base.selfv, extra=base.cls)
+            return
+        if isinstance(base, FuncVal) and base.kind in ("class", "dynclass", "excclass") and attr in ("__name__", "__qualname__"):
+            yield st, Val(STR, z3.String(fresh_name("clsname")))
             return
         if isinstance(base, FuncVal) and base.kind == "class":
             yield st, FuncVal("unbound", attr, extra=base.name)
@@ -897,8 +925,9 @@ class Exec:
         yield from rec(0, st, [])
 
     def ev_List(self, node, st):
-        def build_factory(st_holder):
-            return None
+        if not node.elts:
+            yield st, EmptyLit("list")
+            return
 
         for st1, tup in self._ev_seq(node.elts, st, lambda items: items):
             items = tup
@@ -915,6 +944,48 @@ class Exec:
                 seq = z3.Concat(seq, z3.Unit(coerce(it, et).v))
             heapops.list_write(st1.heap, out, seq)
             yield st1, out
+
+    def ev_Dict(self, node, st):
+        if not node.keys:
+            yield st, EmptyLit("dict")
+            return
+        if any(k is None for k in node.keys):
+            raise Unsupported("dict literal with ** unpacking")
+
+        def rec(i, st, acc):
+            if i == len(node.keys):
+                kt, vt = acc[0][0].t, acc[0][1].t
+                for k, v in acc[1:]:
+                    if not compatible(k.t, kt) or not compatible(v.t, vt):
+                        raise Unsupported("heterogeneous dict literal")
+                t = TDict(kt, vt)
+                r = st.new_ref("dict")
+                out = Val(t, r)
+                heapops.dict_set_contents(st.heap, out, z3.K(t.ksort(), z3.BoolVal(False)),
+                                          [z3.K(t.ksort(), d) for d in vt.default_terms()])
+                for k, v in acc:
+                    heapops.dict_store(st.heap, out, coerce(k, kt), coerce(v, vt))
+                yield st, out
+                return
+            for st1, k in self.ev(node.keys[i], st):
+                for st2, v in self.ev(node.values[i], st1):
+                    yield from rec(i + 1, st2, acc + [(k, v)])
+
+        yield from rec(0, st, [])
+
+    def materialise_empty(self, lit, t, st):
+        r = st.new_ref("lit")
+        out = Val(t, r)
+        if isinstance(t, TDict):
+            heapops.dict_set_contents(st.heap, out, z3.K(t.ksort(), z3.BoolVal(False)),
+                                      [z3.K(t.ksort(), d) for d in t.v.default_terms()])
+        elif isinstance(t, TList):
+            heapops.list_write(st.heap, out, z3.Empty(z3.SeqSort(t.e.sort())))
+        elif isinstance(t, TSet):
+            heapops.set_write(st.heap, out, z3.K(t.e.sort(), z3.BoolVal(False)))
+        else:
+            raise Unsupported(f"empty literal stored as {t}")
+        return out
 
     def ev_JoinedStr(self, node, st):
         # f-string: an uninterpreted string (only used for messages)
@@ -1121,6 +1192,12 @@ class Exec:
                 return
         if isinstance(container, ViewVal) and container.kind in ("keys",):
             container = container.base
+        if isinstance(container.t, TDict) and isinstance(item, Val) and isinstance(item.t, TOpt) \
+                and not isinstance(container.t.k, TOpt) and compatible(item.t.inner, container.t.k):
+            # None is never a key of such a dict
+            inner = coerce(item.v[1], container.t.k)
+            yield st, z3.And(z3.Not(item.v[0]), heapops.dict_has(st.heap, container, inner))
+            return
         if isinstance(container.t, TDict):
             try:
                 item = self.to_key(item, container.t.k, st)
